@@ -64,6 +64,10 @@ def gen_lines(rng, cls="plain", max_measures=6):
     if rng.random() < 0.2:
         # two definitions whose ids differ only in letter case are two definitions (ids are matched as written)
         exb_ids = list(dict.fromkeys(exb_ids + ["1a", "1A"]))
+    zero_defs = rng.random() < 0.2   # #WAV00 (the miss sound of several players) and #BPM00 are definitions like the others
+    if zero_defs:
+        header.append(("WAV00", "miss.wav"))
+        header.append(("BPM00", "130"))
     for e in exb_ids:
         header.append((f"BPM{e}", rng.choice(["222.22", "90.5", "300", "173.333", "60"])))
     if rng.random() < 0.4:
@@ -89,7 +93,7 @@ def gen_lines(rng, cls="plain", max_measures=6):
                     events.append((m, p, lnobj))
                     pending_tail = False
                 elif use_ln and rng.random() < 0.25:
-                    events.append((m, p, rng.choice(wav_ids)))
+                    events.append((m, p, rng.choice(wav_ids + undefined_ids[:1])))   # a head may carry an id without a #WAV: no sample
                     pending_tail = True
                 else:
                     events.append((m, p, rng.choice(wav_ids + undefined_ids[:1])))
